@@ -78,7 +78,9 @@ class NegSoftplusTransform(SoftplusTransform):
         Args:
             upper (ArrayLike): Upper bound of the interval.
         """
-        super().__init__(upper)
+        # `forward` negates the softplus of the negated input, so the offset of the
+        # underlying softplus is `-upper`.
+        super().__init__(-upper)
 
     def forward(self, x: ArrayLike) -> Array:
         return -super().forward(-x)
